@@ -37,11 +37,12 @@ CFG_FILES = ["pycalver.toml", "bumpver.toml", ".bumpver.toml", "pyproject.toml",
 OTHER_FILES = ["README.md", "README.rst", "setup.py"]
 
 UNRELATED = {
-    "setup.cfg": "[metadata]\nname = demo\n\n[options]\nzip_safe = False\n",
+    "setup.cfg": "[metadata]\nname = demo\n\n[options]\nzip_safe = False\n\n[tool:pytest]\naddopts = -q\n\n[bumpversion]\ncommit = True\n",
     "pyproject.toml": '[build-system]\nrequires = ["setuptools"]\n\n[tool.black]\nline-length = 100\n',
-    "pycalver.toml": '[other]\nkey = "value"\n',
-    "bumpver.toml": '[other]\nkey = "value"\n',
-    ".bumpver.toml": '[other]\nkey = "value"\n',
+    # dedicated files that already hold other tables, also below [tool] (where pyproject.toml keeps its bumpver section)
+    "pycalver.toml": '[other]\nkey = "value"\n\n[tool.black]\nline-length = 100\n',
+    "bumpver.toml": '[other]\nkey = "value"\n\n[tool.isort]\nprofile = "black"\n\n[project]\nname = "demo"\n',
+    ".bumpver.toml": '[tool]\nkey = "value"\n',
 }
 VERSIONS = {
     "setup.cfg": "2011.1001",
